@@ -524,7 +524,7 @@ func SlotsExhausted() bool { return slotsExhausted }
 // goroutine.
 //
 //go:norace
-func Go(fn func()) { GoFrom(current, fn) }
+func Go(fn func()) { goFrom(current, fn, true) }
 
 // Parent returns the task that started task id with a go statement (or whose
 // timer did), -1 for the tasks of the world.
@@ -541,7 +541,25 @@ func Parent(id int) int {
 // not the one that happened to advance the clock).
 //
 //go:norace
-func GoFrom(parent int, fn func()) {
+func GoFrom(parent int, fn func()) { goFrom(parent, fn, false) }
+
+var cSlotWait = RegisterCounter("go_statement_waited_for_a_task_slot")
+
+//go:norace
+func freeSlot() int {
+	if ntasks < MaxTasks {
+		return -1
+	}
+	for i := nInitial; i < ntasks; i++ {
+		if state[i] == tDone && !blockedReal[i] {
+			return i
+		}
+	}
+	return -1
+}
+
+//go:norace
+func goFrom(parent int, fn func(), mayWait bool) {
 	if !active || SpawnHook == nil {
 		go fn()
 		return
@@ -562,6 +580,19 @@ func GoFrom(parent int, fn func()) {
 				id = i
 				break
 			}
+		}
+	}
+	if id < 0 && mayWait && current >= 0 {
+		// every slot is taken by a live goroutine: the go statement is delayed
+		// until one of them has finished (a schedule in which the spawner was
+		// not running for a while); only if nobody can finish without the new
+		// goroutine is the limit of the machinery reached
+		for tries := 0; id < 0 && tries < 4*MaxTasks; tries++ {
+			count(cSlotWait)
+			if !PauseOn(0, 0) {
+				break
+			}
+			id = freeSlot()
 		}
 	}
 	if id < 0 {
@@ -986,6 +1017,9 @@ func Yield(site int) {
 		arrive()
 	}
 	me := current
+	if me < 0 {
+		return // a goroutine the simulator does not schedule (slots exhausted)
+	}
 	steps++
 	if site >= 0 && site < MaxSites {
 		siteHit[site]++
@@ -1060,6 +1094,9 @@ func Seam(code int) {
 		arrive()
 	}
 	me := current
+	if me < 0 {
+		return
+	}
 	steps++
 	if steps-stepBase > stepCap {
 		stepBase = steps
@@ -1108,6 +1145,10 @@ func PauseOn(key int32, deadline int64) bool {
 		arrive()
 	}
 	me := current
+	if me < 0 {
+		runtime.Gosched() // not a task (slots exhausted): the run is not judged
+		return true
+	}
 	steps++
 	if steps-stepBase > stepCap {
 		stepBase = steps
